@@ -397,7 +397,7 @@ def run_extreme_bootstrap(ctx):
 
 
 def run(ctx):
-    n = ctx.n(200, 800)
+    n = ctx.n(200, 4000)
     for it in range(n):
         if ctx.out_of_time():
             ctx.notes.append(f'time budget reached after {it} rounds')
